@@ -12,15 +12,20 @@ RULE = ('(i) the message sequences of C08 (exhaustive to length 2/3 + random, 7 
         '(ii) ServersMixin._applyStsPolicy on the real networks store for policy strings x stored ages x disconnect histories x clocks; '
         '(iii) SocketDriver.starttls verification choice for all 16 settings.  non-trivial = distinct step / store state')
 TRUSTED = c08.TRUSTED + ['the TLS handshake (utils.net.ssl_wrap_socket) is not modelled: only the `verify` argument it is called with',
-                          'Owner.do376 (JOINs) runs only after Irc.do376 accepted the numeric: "goes on to join" is observed as fsm = CONNECTED']
+                          'no plugin is loaded: "goes on to join" is observed as fsm = CONNECTED (Owner.do376 sends the JOINs when it is handed the 376). '
+                          'When Irc.do376 refuses the numeric (sasl.required, unauthenticated) it drops the connection with driver.reconnect(wait=True); the '
+                          'callbacks are still handed that 376, and whatever they queue on the reset Irc object is discarded by the second irc.reset() that '
+                          'SocketDriver performs when the scheduled reconnect fires (driver side, not modelled here)',
+                          '"authenticated" = a 903 was received on this connection (do903 sets sasl_authenticated before it checks the fsm state)']
 ASSUMPTIONS = c08.ASSUMPTIONS
 EXPLANATION = 'C09: required SASL and STS on top of the C08 machine; theorems in coq/C09/Props.v'
 LEVEL_TEXT = ('Coq theorems over the C08 registration model plus models of _onCapSts/parseStsPolicy, ServersMixin._applyStsPolicy and the '
-              'starttls verification choice: with sasl.required a connection inside the SASL exchange can only leave it by 903 or by being '
-              'dropped (any message sequence); required SASL is refuted outside that domain by three witnesses (finding F8); an STS policy over '
+              'starttls verification choice: with sasl.required, for EVERY message sequence from the start of a connection, no CAP END is sent '
+              'and the connection never becomes CONNECTED while sasl_authenticated is false (invariant; C09.F8 fixed: endCapabilityNegociation '
+              'and do376 refuse and drop the connection); an STS policy over '
               'an insecure link forces reconnect(port, verify) as the next driver action and is never stored; policies are stored only over '
-              'verified TLS (every sequence); a stored unexpired policy is applied when a disconnect time exists and ignored otherwise '
-              '(finding F9); forced verification implies verification.  Tie: as C08, plus differential runs of _applyStsPolicy and starttls.')
+              'verified TLS (every sequence); a stored policy is applied whenever it is unexpired, a missing disconnect record counting as '
+              'unexpired (C09.F9 fixed); forced verification implies verification.  Tie: as C08, plus differential runs of _applyStsPolicy and starttls.')
 LEVEL_NOTE = c08.LEVEL_NOTE
 TECHNIQUE = c08.TECHNIQUE
 
@@ -77,10 +82,13 @@ class Oracle:
             self.acked = 'sasl' in after[3]
             self.in_sasl = after[0] == 30
         # required SASL
-        if cfg['required'] and not reset_seen and m[0] != 5:
-            ended = any(o[0] == 0 and o[1] == 'CAP' and o[2][:1] == ['END'] for o in out)
-            connected = after[0] == 70 and before[0] != 70
-            if (ended or connected) and not after[7]:
+        if cfg['required'] and m[0] != 5:
+            # what was sent on THIS connection: the outputs up to the first reconnect/die of the step
+            mine = out[:min([i for i, o in enumerate(out) if o[0] in (1, 2)] or [len(out)])]
+            ended = any(o[0] == 0 and o[1] == 'CAP' and o[2][:1] == ['END'] for o in mine)
+            connected = after[0] == 70 and before[0] != 70 and not reset_seen
+            authed = after[7] if not reset_seen else (before[7] or (m[0] == 2 and m[1] == 903))
+            if (ended or connected) and not authed:
                 extra.append({'step': idx, 'kind': 'required-bypassed', 'acked': self.acked, 'in_sasl': self.in_sasl,
                               'detail': 'sasl.required is set but %s without a successful authentication'
                                         % ('CAP END was sent' if ended else 'the connection became CONNECTED')})
@@ -109,18 +117,8 @@ class Oracle:
                 extra.append({'step': idx, 'kind': 'sts-stored-insecure', 'detail': 'policy stored over an insecure link'})
 
 
-def _cls_required(inp):
-    """F8: sasl.required, and the SASL exchange was never entered on this connection (sasl not listed, NAKed,
-    acknowledged out of turn, or CAP skipped): nothing consults the flag"""
-    return inp.get('kind') == 'required-bypassed' and not inp.get('in_sasl')
-
-
-def _cls_nodisc(inp):
-    """F9: a stored policy but no recorded disconnect time for that host"""
-    return inp.get('kind') == 'sts-not-applied' and inp.get('last') is None
-
-
-CLASSES = {'required_but_sasl_never_acked': _cls_required, 'no_disconnect_record': _cls_nodisc}
+# C09.F8 (required_but_sasl_never_acked) and C09.F9 (no_disconnect_record) are fixed: no class attributes a failure to them
+CLASSES = {}
 
 STS_BODIES = ['sts=port=6697', 'sts=port=6697,duration=300', 'sts=duration=300', 'sts=port=', 'sts=port=abc', 'sts=port=+6_6,duration=1',
               'batch sts=port=7000,duration=0,preload sasl', 'sts', 'sts=port=1,port=2', '~sts=port=9,duration=9']
@@ -133,7 +131,11 @@ def apply_cases(ctx):
     lasts = [None, 0, 900, 1000, 1300, 1000000]
     nows = [1000, 1299, 1300, 1301, 2000000]
     cases = [(p, l, n) for p in pols for l in lasts for n in nows]
-    return cases
+    return APPLY_CORPUS + cases
+
+
+# fixed C09.F9 (old witness first, must stay fixed): a stored policy and no recorded disconnect time
+APPLY_CORPUS = [('port=6697,duration=300', None, 1000), ('duration=1000000,port=7000', None, 2000000)]
 
 
 def run_apply(ctx, mods):
@@ -255,9 +257,14 @@ def sequences(ctx):
 
 
 CORPUS = [
+    # fixed C09.F8 (old witnesses, must stay fixed): sasl.required and the server does not list sasl / NAKs it / skips CAP
     {'cfg': 2, 'secure': True, 'seq': [[0, ['*', 'LS', 'batch']], 'ACKALL', [2, 376, ['n', 'end']]]},
     {'cfg': 2, 'secure': True, 'seq': [[0, ['*', 'LS', 'sasl']], [0, ['*', 'NAK', 'sasl']], [2, 376, ['n', 'end']]]},
     {'cfg': 2, 'secure': True, 'seq': [[2, 376, ['n', 'end']]]},
+    {'cfg': 2, 'secure': True, 'seq': [[2, 375, ['n', 'motd']], [2, 376, ['n', 'end']]]},
+    {'cfg': 5, 'secure': True, 'seq': [[0, ['*', 'LS', '']], [2, 422, ['n', 'no motd']]]},
+    # required SASL that succeeds still registers
+    {'cfg': 2, 'secure': True, 'seq': [[0, ['*', 'LS', 'sasl batch']], 'ACKALL', [1, ['+']], [2, 903, ['n', 'ok']], [2, 376, ['n', 'end']]]},
     {'cfg': 2, 'secure': True, 'seq': [[0, ['*', 'LS', 'sasl']], 'ACKALL', [1, ['+']], [2, 904, ['n', 'failed']], [2, 376, ['n', 'end']]]},
     {'cfg': 1, 'secure': False, 'seq': [[0, ['*', 'LS', 'sts=port=6697']]]},
     {'cfg': 1, 'secure': True, 'seq': [[0, ['*', 'LS', 'sts=port=6697,duration=300 batch']]]},
